@@ -45,9 +45,9 @@ META = {
     'functions_encoded': ['numdifftools.extrapolation.EpsAlg.__call__', 'numdifftools.extrapolation.Dea.__init__/limexp/'
                           '__call__/_dea/_shift_table/_update_res3la', 'numdifftools.extrapolation.dea3 (comparison)'],
     'bounds': {'quick': 'EpsAlg k<=2 transients (5 terms), Shanks table up to 5 terms; Dea limexp in {3,5,7}',
-               'thorough': 'EpsAlg k<=3 (7 terms); Dea limexp odd 3..21'},
+               'thorough': 'EpsAlg k<=3 (7 terms); Dea limexp odd 3..13'},
     'outside_claim': ['EpsAlg on the degenerate branch (a vanishing table difference) and beyond k=3',
-                      'Dea limexp > 21; agreement of Dea with the epsilon table beyond limexp 7 / on paths where a guard fired; finiteness in IEEE arithmetic'],
+                      'Dea limexp > 13 (7 quick); agreement of Dea with the epsilon table beyond limexp 7 / on paths where a guard fired; finiteness in IEEE arithmetic'],
     'stubs': ['module global np -> symbolic numpy proxy', 'builtin max -> merged symbolic max (If term)',
               'division by a symbolic table difference -> uninterpreted reciprocal (sound over-approximation of control flow)',
               'Dea.epstab replaced by an index-recording object array of fresh symbols (arbitrary table)',
@@ -63,7 +63,7 @@ def jobs(tier, seed):
     for k in ((1, 2, 3) if th else (1, 2)):
         out.append(('epsalg-transients-k%d' % k, dict(kind='eps_geo', k=k, limexp=0)))
     out.append(('epsalg-shanks-table', dict(kind='eps_shanks', k=3 if th else 2, limexp=0)))
-    for lim in (range(3, 22, 2) if th else (3, 5, 7)):
+    for lim in (range(3, 14, 2) if th else (3, 5, 7)):
         # every control state that satisfies the invariant n <= limexp-1 (reachability is decided in postprocess)
         for n in range(0, lim):
             for nr in range(0, 4):
